@@ -45,7 +45,9 @@ impl Scenario {
     }
     fn flags(&self) -> String {
         // leaks: a cell that contains itself is a reference cycle of Arcs (legal, and part of the workload)
-        format!("-Zmiri-disable-isolation -Zmiri-ignore-leaks -Zmiri-preemption-rate={} -Zmiri-seed={}", self.rate, self.miri_seed)
+        // isolation stays ON: with it off Miri serves `getrandom` (hash keys!) from the host and the
+        // run would no longer be a function of the seed
+        format!("-Zmiri-ignore-leaks -Zmiri-preemption-rate={} -Zmiri-seed={}", self.rate, self.miri_seed)
     }
 }
 
